@@ -794,6 +794,8 @@ package main
 // has to be on the body before the first look)
 //@   assert at call getAPIKey [C16] size_limit_before_body_is_parsed: globals.maxFileUploadSize > 0 ==> bodyLimit[ref(req.Body)] == globals.maxFileUploadSize
 //@   assert at call FormFile [C16] size_limit_on_upload: globals.maxFileUploadSize > 0 ==> bodyLimit[ref(req.Body)] == globals.maxFileUploadSize
+// (the content type is detected from the bytes of the upload - not from the zero padding of the sniffing buffer)
+//@   assert at call DetectContentType [C16] only_uploaded_bytes_are_sniffed: len($1) == lastReadN
 //@   assert at call media.Handler.Upload [C16] api_key_checked: isValid
 //@   assert at call media.Handler.Headers#2 [C16] method_checked: req.Method == "POST" || req.Method == "PUT" || req.Method == "HEAD"
 //@   assert at call media.Handler.Headers#2 [C16] only_after_checks: isValid && challenge == nil
